@@ -261,6 +261,7 @@ func c09(r *rep.Run) {
 		r.Note(w, sprintf("%s k=%d", j.name, j.k))
 		vars := []term.VarDecl{{Name: "x", Ty: I}, {Name: "t", Ty: B}, {Name: "f", Ty: B}}
 		for b := 0; b < 16; b++ {
+			r.Note(w, sprintf("%s k=%d optset %d", j.name, j.k, b))
 			for _, ev := range evModes {
 				o := drive.FromBits(b)
 				o.Events = ev
@@ -368,6 +369,7 @@ func c09(r *rep.Run) {
 		}
 		vars := []term.VarDecl{{Name: "x", Ty: I}}
 		for _, b := range optsN {
+			r.Note(w, sprintf("%s n=%d optset %d", j.shape, j.n, b))
 			// event-free compile first: gives the real node and fast-operator counts
 			o := drive.FromBits(b)
 			cfg := h.NewConfig(vars, o)
